@@ -192,6 +192,11 @@ CHECKS = {
         text="The coefficients of degree < n returned by series(f, x, n) through get_coeff, as_dict and as_basic must equal the Taylor coefficients computed by an independent power-series model of the recipe; cases on which the check's own two references disagree are counted and not judged. Exploration.",
         note="KF-C31-01 (intermediate truncation before division by x**k loses the top coefficients of removable quotients) is a listed known finding; while active only the coefficients a model of the truncation proves safe are judged.",
         variants=["main"]),
+    "C03": dict(
+        engine="hy", technique="property-based testing: generated API programs (one expression of the broad grammar followed by 27 public transformations) in the assertion build whose asserts throw an attributable exception; oracle (a) no assertion fires, (b) an independent Python re-statement of the canonical-form rules holds on every node of every returned tree",
+        text="Every instruction of every generated program must neither trip a SYMENGINE_ASSERT (is_canonical and friends, turned into catchable VerifAssertFailure exceptions by the verification hook) nor return a tree violating the transcribed canonical-form rules for Rational, Complex, Add, Mul, Pow and the container classes. Exploration.",
+        note="Assertion sites already recorded (4, one known finding each, matched by file:line) are excluded; any other site or structural violation is reported. The generator covers the core expression API; matrices, polynomials and solvers are exercised by their own checks, which count assertion failures as assert_seen.",
+        variants=["main"]),
 }
 
 NOT_APPLICABLE = {}
